@@ -411,6 +411,15 @@ impl State {
         }
     }
 
+    /* adds a disjunct found by the work loop as a new pending set; it
+     * is expanded by get_next_check, and its alternatives are
+     * subject to the examined set as usual. */
+    fn push_disjunct(&mut self, chk: PendingCheck) {
+        let mut set = VecDeque::new();
+        set.push_back(chk);
+        self.todo.push_front((set, 0))
+    }
+
     /* adds a check to the examined set */
     fn examine(&mut self, o: &Rc<LocatedVal<PDFObjT>>, c: &Rc<TypeCheck>) {
         let chk = (Rc::clone(o), Rc::clone(c));
@@ -730,6 +739,16 @@ pub fn check_type(
         state.examine(&o, &tc);
         // reset for the next check.
         result = None;
+
+        // A disjunct that reaches the work loop was found behind a
+        // name, or is an alternative that normalization did not
+        // flatten (normalization does not look through names).  Put it
+        // back as a pending set of its own, so that get_next_check
+        // expands its alternatives.
+        if let PDFType::Disjunct(_) = c.typ() {
+            state.push_disjunct((o, Rc::new(TypeCheck::Rep(c))));
+            continue
+        }
 
         // println!("\n\n {:?}\n\n against {:?}\n\n", o.val(), c);
 
